@@ -77,14 +77,14 @@ func runC13(args []string) error {
 	r := rf.rng()
 	n := rf.count(400, 8000)
 	sum := &Summary{Engine: "c13", Seed: rf.Seed,
-		Rule: "random scenarios over the real kv.LFSM: apply batches of set/delete/unknown-op entries with stale/current/zero/future versions on 12 keys sharing prefixes and directory structure, interleaved with get/exists/glob/list/listdir queries and snapshot+recover into a junk-filled instance; a second replica applies the same entries under a different batching; distinct = distinct scenarios; non-trivial = at least one version mismatch and one successful overwrite"}
+		Rule: "random scenarios over the real kv.LFSM: apply batches of set/delete/unknown-op entries with stale/current/zero/future versions on 14 keys sharing prefixes and directory structure (directories that hold keys only deeper down included), interleaved with get/exists/glob/list/listdir queries and snapshot+recover into a junk-filled instance; a second replica applies the same entries under a different batching; distinct = distinct scenarios; non-trivial = at least one version mismatch and one successful overwrite"}
 	cf := &CasesFile{Requires: []string{"Model.Bytes", "Model.Obs", "Model.SMap", "Model.MetaKV", "Run.C13Run"}, CaseType: "c13case", Check: "c13_check", Show: "c13_model"}
 	segs := []string{"a", "b", "tables", "sys", "ü", "a1"}
 	var keys []string
 	for _, s := range segs {
 		keys = append(keys, "/"+s)
 	}
-	keys = append(keys, "/tables/a", "/tables/b", "/tables/a/lease", "/a/b", "/a/b/c", "/sys/idseq", "/a1/ü")
+	keys = append(keys, "/tables/a", "/tables/b", "/tables/a/lease", "/a/b", "/a/b/c", "/sys/idseq", "/a1/ü", "/tables/b/parts/0", "/sys/x/y/z")
 	vals := []string{"", "x", "1", "{\"a\":1}", "zz", "ü<&>"}
 	pats := []string{"/tables/*", "/*", "/a/*", "/a*", "/*/a", "/tables/a", "/a/*/c", "*", "/sys/id*", "/tables/*/lease", "/nonexistent/*"}
 	dirs := []string{"/", "/a", "/tables", "/a/b", "/tables/a", "/sys", "/none"}
@@ -258,6 +258,32 @@ func runC13(args []string) error {
 					st = "SQuery (QListDir " + cBytes([]byte(d)) + ")"
 					ob = oStrs(vs.([]string))
 					hq.Inc("listdir")
+					// oracle: a directory listing names exactly the directories directly below the path that hold a stored
+					// key at any depth (not for the root, see List)
+					if strings.HasPrefix(d, "/") && d != "/" {
+						got := map[string]bool{}
+						for _, v := range vs.([]string) {
+							got[v] = true
+						}
+						want := map[string]bool{}
+						for k := range ref {
+							if strings.HasPrefix(k, d+"/") {
+								if parts := strings.Split(k[len(d)+1:], "/"); len(parts) >= 2 {
+									want[parts[0]] = true
+								}
+							}
+						}
+						for w := range want {
+							if !got[w] {
+								sum.violate(c, "a directory listing drops a directory that holds a stored key", map[string]any{"log": fmt.Sprint(log), "steps": append(append([]string{}, descr...), st)}, fmt.Sprintf("ListDir(%q) = %v lacks %q", d, vs, w))
+							}
+						}
+						for g := range got {
+							if !want[g] {
+								sum.violate(c, "a directory listing names a directory that holds no stored key", map[string]any{"log": fmt.Sprint(log), "steps": append(append([]string{}, descr...), st)}, fmt.Sprintf("ListDir(%q) = %v", d, vs))
+							}
+						}
+					}
 				}
 				steps = append(steps, st)
 				obs = append(obs, ob)
